@@ -196,6 +196,7 @@ func (c *MustacheTemplate) evaluateTokens(tokens []*mparsers.MustacheToken, vari
 	builder := strings.Builder{}
 
 	for _, token := range tokens {
+		verifEvalHook(c)
 		switch token.Type() {
 		case mparsers.TokenComment:
 			// Skip
